@@ -62,6 +62,89 @@ type Walker struct {
 	dry    bool
 	// condAltFacts memo
 	altMemo map[interface{}][]FactT
+	infMemo map[infKey]bool
+}
+
+type infKey struct {
+	fr *Frame
+	b  *ssa.BasicBlock
+}
+
+// blockInfeasible: a test dominating block b evaluates, with the constants this chain binds
+// (a flag argument, a field of a literal record handed down, a row of a constant table), to
+// the value opposite to the one the path to b needs.
+func (w *Walker) blockInfeasible(fr *Frame, b *ssa.BasicBlock) bool {
+	if fr == nil || fr.Parent == nil && fr.MC == nil {
+		return false // nothing is bound in the entry frame
+	}
+	k := infKey{fr, b}
+	if v, ok := w.infMemo[k]; ok {
+		return v
+	}
+	if w.infMemo == nil {
+		w.infMemo = map[infKey]bool{}
+	}
+	w.infMemo[k] = false
+	res := false
+	for _, df := range dominatingFacts(b) {
+		switch df.Cond.(type) {
+		case *ssa.Call, *ssa.Phi, *ssa.Extract:
+			continue // only plain tests of bound values
+		}
+		t := w.ts.Of(df.Cond, fr)
+		if t == nil {
+			continue
+		}
+		val, known := false, false
+		switch {
+		case t.Op == "const" && t.Name == "true":
+			val, known = true, true
+		case t.Op == "const" && t.Name == "false":
+			val, known = false, true
+		case t.Op == "bin" && len(t.Args) == 2 && t.Args[0].Op == "const" && t.Args[1].Op == "const" && (t.Name == "==" || t.Name == "!="):
+			a, c := t.Args[0].Name, t.Args[1].Name
+			if isLiteralConst(a) && isLiteralConst(c) {
+				val, known = (a == c) == (t.Name == "=="), true
+			}
+		}
+		// one of several constants against another constant: decided when none of them matches
+		if !known && t.Op == "bin" && len(t.Args) == 2 && (t.Name == "==" || t.Name == "!=") {
+			ph, c := t.Args[0], t.Args[1]
+			if ph.Op != "phi" {
+				ph, c = c, ph
+			}
+			if ph.Op == "phi" && len(ph.Args) > 0 && c.Op == "const" && isLiteralConst(c.Name) {
+				all, hit := true, false
+				for _, al := range ph.Args {
+					if al.Op != "const" || !isLiteralConst(al.Name) {
+						all = false
+					}
+					if al.Op == "const" && al.Name == c.Name {
+						hit = true
+					}
+				}
+				if all && !hit {
+					val, known = t.Name == "!=", true
+				}
+			}
+		}
+		if known && val != df.Holds {
+			res = true
+			if os.Getenv("DEBUG_INF") != "" {
+				fmt.Fprintf(os.Stderr, "infeasible b%d of %s on %s: %s needs %v\n", b.Index, fr.Fn.Name(), fr.String(), t.String(), df.Holds)
+			}
+			break
+		}
+	}
+	w.infMemo[k] = res
+	return res
+}
+
+func isLiteralConst(s string) bool {
+	if s == "" || s == "zero" || strings.HasPrefix(s, "?") || strings.HasPrefix(s, "zero:") || s == "⟲" {
+		return false
+	}
+	return true
 }
 
 func newWalker(cx *Ctx) *Walker { return &Walker{cx: cx, ts: newTerms(cx)} }
@@ -180,6 +263,9 @@ func (w *Walker) walk(fr *Frame, visit func(fr *Frame)) {
 		if w.cx.isDoubleFunc(e.Callee) {
 			continue
 		}
+		if si, ok := e.Site.(ssa.Instruction); ok && si.Block() != nil && si.Parent() == fr.Fn && w.blockInfeasible(fr, si.Block()) {
+			continue
+		}
 		nfr := &Frame{Fn: e.Callee, Parent: fr, Depth: fr.Depth + 1}
 		switch e.Kind {
 		case "closure":
@@ -227,6 +313,9 @@ func (w *Walker) EventsOf(fr *Frame) []*Event {
 		return nil
 	}
 	for _, b := range f.Blocks {
+		if w.blockInfeasible(fr, b) {
+			continue // under a test that the constants bound along this chain decide the other way
+		}
 		for _, ins := range b.Instrs {
 			if st, ok := ins.(*ssa.Store); ok {
 				if ev := w.deltaEvent(fr, st); ev != nil {
